@@ -144,6 +144,12 @@ func c20Alphabet() [][2]protocol.EntryExt {
 		{mk(time.Unix(-1, 0).UTC(), rec()), mk(time.Unix(-1, 0).In(east), rec())},
 		{mk(time.Unix((1<<32)-1, 0).UTC(), rec()), mk(time.Unix((1<<32)-1, 0).In(west), rec())},
 		{mk(t1.Add(time.Second).UTC(), rec()), mk(t1.Add(time.Second).In(west), rec())},
+		// ... or in a 64-bit count of nanoseconds (2^64 ns = 18446744073.709551616 s), or of milliseconds / microseconds
+		// truncated to 32 / 64 bits
+		{mk(time.Unix(5+18446744073, 7+709551616).UTC(), rec()), mk(time.Unix(5+18446744073, 7+709551616).In(east), rec())},
+		{mk(time.Unix(5-18446744073, 7-709551616+1000000000-1000000000).UTC(), rec()), mk(time.Unix(5-18446744073, 7-709551616).In(west), rec())},
+		{mk(time.Unix(5+4294967, 7+296000000).UTC(), rec()), mk(time.Unix(5+4294967, 7+296000000).In(west), rec())},
+		{mk(time.Unix(5, 7+1000).UTC(), rec()), mk(time.Unix(5, 7+1000).In(east), rec())},
 	}
 }
 
